@@ -103,12 +103,13 @@ def class_info(cls) -> ClassInfo:
 
 class Gen:
     def __init__(self, tape, *, unlisted_enums: bool = True, nan: bool = True, big: bool = False,
-                 max_depth: int = 3):
+                 max_depth: int = 3, negzero: bool = False):
         self.tape = tape
         self.unlisted_enums = unlisted_enums
         self.nan = nan
         self.big = big
         self.max_depth = max_depth
+        self.negzero = negzero      # -0.0: equal to the default yet not the default's bits (C10 only: sizes vs bytes)
 
     # -- scalars ------------------------------------------------------------------------------
     def scalar(self, proto_type: str, enum_cls=None, in_container: bool = False, nonempty_str: bool = False):
@@ -117,6 +118,8 @@ class Gen:
             return t.choice(_INT[proto_type], "int")
         if proto_type == betterproto.TYPE_BOOL:
             return bool(t.draw(2, "bool"))
+        if proto_type in (betterproto.TYPE_FLOAT, betterproto.TYPE_DOUBLE) and self.negzero and t.draw(10, "negzero?") == 9:
+            return -0.0
         if proto_type == betterproto.TYPE_FLOAT:
             if self.nan and not in_container and t.draw(12, "nan?") == 11:
                 return float("nan")
